@@ -292,8 +292,8 @@ V(id='c05-hash-fastpath-unreduced', prop='C05', file='mpmath/libmp/libmpf.py',
 
 # ---------------------------------------------------------------- C10 -------
 V(id='c10-mod-early-return', prop='C10', file='mpmath/libmp/libmpf.py',
-  old="        return mpf_pos(s, prec, rnd)\n    # Another important special case",
-  new="        return s\n    # Another important special case",
+  old="            return mpf_pos(s, prec, rnd)\n        return mpf_add(s, t, prec, rnd)",
+  new="            return s\n        return mpf_add(s, t, prec, rnd)",
   expect='fire:B-R1:mpf_mod')
 V(id='c10-add-zero-branch', prop='C10', file='mpmath/libmp/libmpf.py',
   old="    if sman:\n        return normalize1(ssign, sman, sexp, sbc, prec or sbc, rnd)\n    return s",
@@ -389,10 +389,10 @@ V(id='c13-acos-fieldwise-normalize', prop='C13', file='mpmath/libmp/libmpc.py',
   new="    re = normalize(re[0], re[1], re[2], re[3], prec, rnd)\n    im = mpf_pos(im, prec, rnd)\n    return re, im\n\ndef mpc_acos",
   expect='fire:B-R6:acos_asin')
 V(id='c13-log-fieldwise-normalize1', prop='C13', file='mpmath/libmp/libelefun.py',
-  old="        s = mpf_pos(r, prec, rnd)\n", new="        s = normalize1(r[0], r[1], r[2], r[3], prec, rnd)\n",
+  old="        s = exact_nthroot(s, n, prec, r) or mpf_pos(r, prec, rnd)\n", new="        s = exact_nthroot(s, n, prec, r) or normalize1(r[0], r[1], r[2], r[3], prec, rnd)\n",
   expect='fire:B-R6:mpf_nthroot')
 V(id='c13-benign-unpacked', prop='C13', file='mpmath/libmp/libelefun.py',
-  old="        s = mpf_pos(r, prec, rnd)\n", new="        s = mpf_pos(mpf_pos(r, prec + 2, rnd), prec, rnd)\n",
+  old="        s = exact_nthroot(s, n, prec, r) or mpf_pos(r, prec, rnd)\n", new="        s = exact_nthroot(s, n, prec, r) or mpf_pos(mpf_pos(r, prec + 2, rnd), prec, rnd)\n",
   expect='silent')
 
 # ---------------------------------------------------------------- C02 -------
@@ -2127,3 +2127,39 @@ V(id='c04-pow-exact-component-extra-rounding', prop='C04', file='mpmath/libmp/li
   expect='fire:P-R1:mpc_pow_int')
 V(id='c04-benign-pow-gate-larger', prop='C04', file='mpmath/libmp/libmpc.py',
   old="    if exact_size < 24000:", new="    if exact_size <= 30000:", expect='silent')
+
+# ---- C10 B-R8 (fixes ea896ed, a3ccac3): public unwrapped functions do not hand their argument back ----
+V(id='c10-conjugate-returns-self', prop='C10', file='mpmath/ctx_mp_python.py',
+  old="    conjugate = lambda self: +self", new="    conjugate = lambda self: self", expect='fire:B-R8:_mpf')
+V(id='c10-sign-returns-argument', prop='C10', file='mpmath/functions/functions.py',
+  old="    if not x or ctx.isnan(x):\n        return +x", new="    if not x or ctx.isnan(x):\n        return x", expect='fire:B-R8:sign')
+V(id='c10-arg-of-zero-returns-argument', prop='C10', file='mpmath/functions/functions.py',
+  old="def conj(ctx, x):\n    x = ctx.convert(x)\n", new="def conj(ctx, x):\n    x = ctx.convert(x)\n    if ctx._is_real_type(x):\n        return x\n",
+  expect='fire:B-R8:conj')
+V(id='c10-benign-sign-pos-via-name', prop='C10', file='mpmath/functions/functions.py',
+  old="    if not x or ctx.isnan(x):\n        return +x", new="    if not x or ctx.isnan(x):\n        y = +x\n        return y", expect='silent')
+
+# ---- C13 R-C1 (fix 4c19272) and E-X1 (fix 81d714c) ----
+V(id='c13-tan-double-angle-by-subtraction', prop='C13', file='mpmath/libmp/libmpc.py',
+  old="    mag = mpf_add(mpf_mul(c, c, wp), mpf_mul(sh, sh, wp), wp)\n    re = mpf_div(mpf_mul(s, c, wp), mag, prec, rnd)\n    im = mpf_div(mpf_mul(sh, ch, wp), mag, prec, rnd)",
+  new="    c2 = mpf_sub(mpf_shift(mpf_mul(c, c, wp), 1), fone, wp)\n    ch2 = mpf_add(mpf_shift(mpf_mul(sh, sh, wp), 1), fone, wp)\n    mag = mpf_shift(mpf_add(c2, ch2, wp), -1)\n    re = mpf_div(mpf_mul(s, c, wp), mag, prec, rnd)\n    im = mpf_div(mpf_mul(sh, ch, wp), mag, prec, rnd)",
+  expect='fire:R-C1:mpc_tan')
+V(id='c13-tan-cos-plus-cosh', prop='C13', file='mpmath/libmp/libmpc.py',
+  old="    mag = mpf_add(mpf_mul(c, c, wp), mpf_mul(sh, sh, wp), wp)\n", new="    mag = mpf_add(c, ch, wp)\n",
+  expect='fire:R-C1:mpc_tan')
+V(id='c13-tan-cosh-minus-cos', prop='C13', file='mpmath/libmp/libmpc.py',
+  old="    mag = mpf_add(mpf_mul(c, c, wp), mpf_mul(sh, sh, wp), wp)\n", new="    mag = mpf_sub(ch, c, wp)\n",
+  expect='fire:R-C1:mpc_tan')
+V(id='c13-nthroot-newton-no-exact-test', prop='C13', file='mpmath/libmp/libelefun.py',
+  old="    s = exact_nthroot(s, n, prec, from_man_exp(man, exp1)) or \\\n        from_man_exp(man, exp1, prec, rnd)",
+  new="    s = from_man_exp(man, exp1, prec, rnd)", expect='fire:E-X1:mpf_nthroot')
+V(id='c13-nthroot-fallback-no-exact-test', prop='C13', file='mpmath/libmp/libelefun.py',
+  old="        s = exact_nthroot(s, n, prec, r) or mpf_pos(r, prec, rnd)", new="        s = mpf_pos(r, prec, rnd)",
+  expect='fire:E-X1:mpf_nthroot')
+V(id='c13-exact-root-unverified', prop='C13', file='mpmath/libmp/libelefun.py',
+  old="        if c > 0 and pow(c, n, mask+1) == low and c**n == man:", new="        if c > 0 and pow(c, n, mask+1) == low:",
+  expect='fire:E-X1:exact_nthroot')
+V(id='c13-exact-root-one-sided-candidates', prop='C13', file='mpmath/libmp/libelefun.py',
+  old="    for c in (t-1, t, t+1, t+2):", new="    for c in (t, t+1):", expect='fire:E-X1:exact_nthroot')
+V(id='c13-benign-exact-root-more-candidates', prop='C13', file='mpmath/libmp/libelefun.py',
+  old="    for c in (t-1, t, t+1, t+2):", new="    for c in (t-2, t-1, t, t+1, t+2):", expect='silent')
